@@ -20,10 +20,11 @@ EXPLANATION = (
     ' UDP-LABEL: datagrams read from a listener-side session socket are labelled with the session target after the receive (Frame::recv_from labels with the source).'
     ' LENPFX: every length prefix the frame / SOCKS encoders write is a byte length (never a count of characters or items), and within one encoder a prefix is not paired with a variable-length field nobody measured.'
     ' PORT: every address DnsConfig::lookup_host returns is SocketAddr::new(_, port) with the port it was called with.'
-    ' SPLIT: TargetAddress::from_str splits host:port once, at the last colon; V1 also understands the byte scan spelled as a loop with a found-flag (the loop body is interpreted for all 256 byte values).')
+    ' SPLIT: TargetAddress::from_str splits host:port once, at the last colon; V1 also understands the byte scan spelled as a loop with a found-flag (the loop body is interpreted for all 256 byte values).'
+    ' UTF8: no request / address decoder builds a text field with from_utf8_lossy (a host that is not UTF-8 is refused, not rewritten).')
 RULE_TEXT = "instances = casts, validator clauses, tag tables, refusal edges, set_target call sites"
 TRUSTED = ["UDP payloads are <= 65507 bytes (u16 body length in the RPFM header)", "rustc type checking of integer widths"]
-NOT_DECIDED = ["round-trip equality for all strings", "from_utf8_lossy reinterpretation of non-UTF-8 hosts (recorded as finding candidate F17)"]
+NOT_DECIDED = ["round-trip equality for all strings"]
 
 ENCODER_FILES = ("src/common/socks.rs", "src/common/frames.rs", "src/common/fragment.rs", "src/common/http.rs", "src/common/h11c.rs",
                  "src/common/udp.rs", "src/common/quic.rs")
@@ -372,6 +373,33 @@ def rule_split_once(chk, prog, rule="SPLIT"):
 
 
 
+
+def rule_strict_utf8(chk, prog, rule="UTF8"):
+    """A destination host travels as bytes and is kept as a String.  Bytes that are not UTF-8 cannot be kept faithfully, so the decoder
+    refuses them; `String::from_utf8_lossy` instead rewrites every invalid byte to U+FFFD - three other bytes - and the proxy asks
+    the next hop for a host the client did not name (and a length guard taken on the wire bytes no longer bounds the String).  In the
+    address / request decoders (common/socks.rs, common/frames.rs, common/http.rs, listeners) no text field is built with
+    from_utf8_lossy; strict from_utf8 sites are the floor."""
+    n = 0
+    strict = 0
+    for f in sorted(prog.fns.values(), key=lambda x: x.key):
+        if f.crate != "redproxy_rs" or not re.search(r"src/(common/(socks|frames|http|h11c|udp)\.rs|listeners/|connectors/)", f.file):
+            continue
+        for c in f.calls:
+            p_ = c.path or ""
+            if re.search(r"string::String::from_utf8$|core::str::(converts::)?from_utf8$", p_):
+                strict += 1
+            if re.search(r"string::String::from_utf8_lossy$|from_utf8_unchecked$", p_):
+                n += 1
+                chk.instance(rule, c.where(), "%s decodes a text field strictly" % f.path, False, short(p_))
+                chk.finding(rule, f.key, "lossy-host", "", c.where(),
+                            "%s builds a text field of a request with %s: bytes that are not UTF-8 are rewritten (U+FFFD) instead of the "
+                            "request being refused, so the destination the next hop is asked for is not the one the client named" % (f.path, short(p_)))
+    chk.instance(rule, "src/common", "no request / address decoder converts bytes to text lossily", n == 0, "%d strict from_utf8 site(s)" % strict, nontrivial=False)
+    chk.floor(rule, strict, 3, "strict UTF-8 decoding sites in the request / address decoders")
+
+
+
 def run(chk, prog):
     from . import anchors
     # ------------------------------------------------------------------ L1
@@ -605,6 +633,7 @@ def run(chk, prog):
     shared.rule_lenpfx(chk, prog, "LENPFX")
     rule_lookup_port(chk, prog)
     rule_split_once(chk, prog)
+    rule_strict_utf8(chk, prog)
 
     # ------------------------------------------------------------------ UDP-LABEL: datagrams of a listener-side session keep the session target
     from . import c10 as _c10
